@@ -642,6 +642,21 @@ class PrimMixin:
     def p_builtin_trunc(self, args, kw, st, fr, node):
         return self.trunc(args[0])
 
+    def p_builtin_c_trunc(self, args, kw, st, fr, node):
+        return self.trunc(args[0])
+
+    def p_builtin_c_div(self, args, kw, st, fr, node):
+        from .values import c_div
+        if not fr.spec:
+            self.oblige(st, to_z3(args[1], "int") != 0, "safety", "div-by-zero", node, fr)
+        return c_div(args[0], args[1])
+
+    def p_builtin_c_mod(self, args, kw, st, fr, node):
+        from .values import c_mod
+        if not fr.spec:
+            self.oblige(st, to_z3(args[1], "int") != 0, "safety", "div-by-zero", node, fr)
+        return c_mod(args[0], args[1])
+
     def p_builtin_floor(self, args, kw, st, fr, node):
         return z3.ToInt(to_z3(args[0], "real"))
 
@@ -868,13 +883,40 @@ class PrimMixin:
         inv = fresh("argsort!inv", z3.ArraySort(I, I))
         i, j = fresh("i", I), fresh("j", I)
         self.assume(st, z3.ForAll([i], z3.Implies(z3.And(i >= 0, i < n), z3.And(s[i] >= 0, s[i] < n, inv[s[i]] == i))))
-        self.assume(st, z3.ForAll([j], z3.Implies(z3.And(j >= 0, j < n), z3.And(inv[j] >= 0, inv[j] < n, s[inv[j]] == j))))
+        body = z3.Implies(z3.And(j >= 0, j < n), z3.And(inv[j] >= 0, inv[j] < n, s[inv[j]] == j))
+        try:
+            self.assume(st, z3.ForAll([j], body, patterns=[inv[j], t[j]]))
+        except z3.Z3Exception:
+            self.assume(st, z3.ForAll([j], body))
         self.assume(st, z3.ForAll([i, j], z3.Implies(z3.And(i >= 0, i < j, j < n), t[s[i]] <= t[s[j]])))
         if stable:
             self.assume(st, z3.ForAll([i, j], z3.Implies(z3.And(i >= 0, i < j, j < n, t[s[i]] == t[s[j]]), s[i] < s[j])))
         self.use("numpy argsort: a permutation (with inverse) ordering the values non-decreasingly%s"
                  % ("; kind='stable' orders ties by index" if stable else ""))
-        return st.alloc(HArr("int", n, s, fresh=True))
+        r = st.alloc(HArr("int", n, s, fresh=True))
+        st.get(r).inv = inv
+        return r
+
+    def p_builtin_is_permutation(self, args, kw, st, fr, node):
+        """is_permutation(a): a is a permutation of 0..len(a)-1 (stated through the ghost inverse carried by the array)"""
+        a = args[0]
+        h = st.get(a)
+        n, t = self.arr_term(st, a)
+        n = to_z3(n, "int")
+        if h.inv is None:
+            st.put(a, h.replace())
+            st.get(a).inv = fresh("perm!inv", z3.ArraySort(I, I))
+        inv = st.get(a).inv
+        i, j = fresh("i", I), fresh("j", I)
+        c1 = z3.ForAll([i], z3.Implies(z3.And(i >= 0, i < n), z3.And(t[i] >= 0, t[i] < n, inv[t[i]] == i)))
+        body = z3.Implies(z3.And(j >= 0, j < n), z3.And(inv[j] >= 0, inv[j] < n, t[inv[j]] == j))
+        pats = [inv[j]]
+        if len(args) > 1:
+            # instantiation hint: also instantiate for every index at which the hint array is read
+            _, ht = self.arr_term(st, args[1])
+            pats.append(ht[j])
+        c2 = z3.ForAll([j], body, patterns=pats)
+        return z3.And(c1, c2)
 
     def np_argsort(self, args, kw, st, fr, node):
         return self._argsort(args[0], st, fr, node, kw.get("kind") in ("stable", "mergesort"))
